@@ -568,6 +568,23 @@ def map_children_rule(ctx: Ctx, rs: RuleSet, rule: str):
       ok = ok and (a0 is not None and unparse(a0).endswith('.values')
                    and unparse(a1).endswith('.metadata') and
                    unparse(a0).split('.')[0] == unparse(a1).split('.')[0])
+    elif isinstance(v, ast.Call) and isinstance(
+        v.func, ast.Attribute) and v.func.attr == 'unflatten' and not v.args \
+        and not v.keywords:
+      # <sub-traversal result>.unflatten(): the result object rebuilds itself
+      # with its own traverser, values and metadata
+      sub = roles.deref(mc, v.func.value)
+      su = ctx.p.funcs.get(f'{DAG}.SubTraversalResult.unflatten')
+      su_ret, _ = fn_return(su) if su is not None else (None, None)
+      sp = su.params[0] if su is not None else 'self'
+      good = (isinstance(sub, ast.Call) and unparse(sub.func).endswith(
+          '_flattened_map_children') and len(sub.args) == 2 and unparse(
+              sub.args[0]) == val and trav and unparse(
+                  sub.args[1]) == trav[0] and su_ret is not None and unparse(
+                      su_ret) == (f'{sp}.node_traverser.unflatten({sp}.values, '
+                                  f'{sp}.metadata)'))
+      n_unfl += 1
+      ok = ok and good
     elif v is not None and unparse(v) == val:
       # the value itself comes back only when it has no traverser
       ok = ok and any(
@@ -663,7 +680,17 @@ def _shape_rules(ctx: Ctx, rs: RuleSet):
   # and the non-optimised branch zips flatten values with path_elements
   z = [c for c in ctx.calls(ym) if isinstance(c.func, ast.Name) and
        c.func.id == 'zip' and len(c.args) == 2]
-  rs.check(ok and len(ys) >= 2 and len(z) == 1, rule, f'{ym.qualname}',
+  # each yield sits in a loop over (child, element) pairs and passes exactly
+  # that pair on
+  for L_ in walk_function(ym.node):
+    if isinstance(L_, ast.For):
+      for y in ast.walk(L_):
+        if isinstance(y, ast.Yield) and isinstance(y.value, ast.Call) and any(
+            y is z_ for b_ in L_.body for z_ in ast.walk(b_)):
+          tg = [unparse(t_) for t_ in L_.target.elts] if isinstance(
+              L_.target, ast.Tuple) else []
+          ok = ok and [unparse(a_) for a_ in y.value.args] == tg
+  rs.check(ok and len(ys) >= 1 and len(z) == 1, rule, f'{ym.qualname}',
            f'{len(ys)} yields, each self.call(child, element); generic branch '
            'zips flatten values with path elements', ctx.loc(ym, ym.node))
   map_children_rule(ctx, rs, rule)
